@@ -179,6 +179,10 @@ def cases(ctx):
             for b in SHORT_ALPHA[ep]:
                 for c in SHORT_ALPHA[ep]:
                     yield ("short", ep, a + b + c)
+    # long inputs for the text parsers whose cost must stay (near) linear: long words, long runs of one character class, repeated
+    # fragments of the grammar, each with tails that make a greedy / nested pattern back off (a nested quantifier shows as a hang)
+    for i in range(len(long_probes())):
+        yield ("long", "cfgid", i)
     for hi in range(257):
         yield ("filter2", hi)
     ents = [0x0000, 0x009B, 0x409B, 0x809B, 0xC0AD, 0xFFFF, 0x3FFF]
@@ -219,6 +223,20 @@ def cases(ctx):
     for c in c05.cases(ctx):
         if len(c) == 3:                      # BF3 framing only (the BEC2 variants are C05's own business)
             yield ("edit",) + tuple(c[1:])
+
+
+_PROBES = None
+
+
+def long_probes():
+    global _PROBES
+    if _PROBES is None:
+        heads = ["", "12345-1234-1234-01 ", "x ", "12345-1234-1234-01"]
+        bodies = ["Reader_Configuration_for_Building_A_Entrance_West", "a" * 60, "ab " * 30, "1" * 60, "12345-" * 12, "(version 0" * 8,
+                  " " * 60, "-" * 60, "a (version 01) " * 8, "\u00e9" * 60]
+        tails = ["", "  v2", "\t", " (version 1", ")", " (version 12)", " (version 12) "]
+        _PROBES = [h + b_ + t for h in heads for b_ in bodies for t in tails]
+    return _PROBES
 
 
 def call_entry(ctx, kind, fx, ds, text):
@@ -313,6 +331,11 @@ def run_case(ctx, case):
         if fam == "text" and case[4] == "intact" and ds in ("", "all") and o.cls != "returned":
             o.viol("%s|intact-rejected" % entry, "the valid artefact itself is not parsed")
         return o
+    if fam == "long":
+        _, ep, i = case
+        text = long_probes()[i]
+        o2 = Outcome("?")
+        return guarded(o2, ep, call_entry, ctx, ep, None, "", text)
     if fam == "short":
         ep, first = case[1], case[2]
         alpha = SHORT_ALPHA[ep]
